@@ -10,6 +10,10 @@ const (
 	sec = time.Second
 )
 
+// hWide: the lattice of the fault-injecting families; short intervals twice as likely as the long ones
+// (per-refresh time-out max(H/2, 1s) switches at 2s; the fixed 2s/5s time-outs of the library lie inside)
+var hWide = []time.Duration{50 * ms, 100 * ms, 200 * ms, 500 * ms, 1 * sec, 100 * ms, 500 * ms, 2 * sec, 3 * sec, 5 * sec}
+
 var hLattice = []time.Duration{50 * ms, 100 * ms, 200 * ms, 500 * ms, 1 * sec, 2 * sec, 3 * sec, 5 * sec, 10 * sec}
 
 // GenPlan builds the seed-th plan of a family.
@@ -222,7 +226,7 @@ func init() {
 	// C01 family: everything except outsiders.
 	families["mixed"] = func(r *Rng) *Plan {
 		p := &Plan{Judge: []string{"C01", "C05", "C08", "C18", "C19", "C13", "C09"}}
-		baseTiming(r, p, hLattice[:5])
+		baseTiming(r, p, hWide)
 		n := 2 + r.Intn(4)
 		groups := 1 + r.Intn(2)
 		p.Insts = mkInsts(r, n, groups)
@@ -501,7 +505,7 @@ func init() {
 	// C13: arbitrary record contents and outside interference.
 	families["c13"] = func(r *Rng) *Plan {
 		p := &Plan{Judge: []string{"C13"}}
-		baseTiming(r, p, hLattice[:5])
+		baseTiming(r, p, hWide)
 		n := 1 + r.Intn(4)
 		p.Insts = mkInsts(r, n, 1)
 		for i := range p.Insts {
@@ -562,7 +566,7 @@ func init() {
 	// and context deadlines.
 	families["c04"] = func(r *Rng) *Plan {
 		p := &Plan{Judge: []string{"C04"}}
-		baseTiming(r, p, hLattice[:5])
+		baseTiming(r, p, hWide)
 		n := 1 + r.Intn(3)
 		p.Insts = mkInsts(r, n, 1)
 		for i := range p.Insts {
@@ -745,7 +749,7 @@ func init() {
 	// or delayed; transient failures of Watch/Get/Create on the candidates, then recovery.
 	families["c06"] = func(r *Rng) *Plan {
 		p := &Plan{Judge: []string{"C06"}}
-		baseTiming(r, p, hLattice[:6])
+		baseTiming(r, p, hWide)
 		if r.Bool(0.15) {
 			// a candidate whose demotion callback is slow: it was a follower, then led, was preempted
 			// by a higher-priority instance (which it learns from its watch), and while its OnDemote
@@ -948,7 +952,7 @@ func init() {
 	// the connection or the health at an arbitrary time; stops land on top of it.
 	families["c08"] = func(r *Rng) *Plan {
 		p := &Plan{Judge: []string{"C08", "C19", "C18", "C05"}}
-		baseTiming(r, p, hLattice[:5])
+		baseTiming(r, p, hWide)
 		n := 1 + r.Intn(2)
 		p.Insts = mkInsts(r, n, 1)
 		for i := range p.Insts {
@@ -1071,7 +1075,7 @@ func init() {
 	// enumerates (op#, phase, variant); the rest of the schedule is random.
 	families["c09stop"] = func(r *Rng) *Plan {
 		p := &Plan{Judge: []string{"C09", "C18", "C08"}}
-		baseTiming(r, p, hLattice[:5])
+		baseTiming(r, p, hWide)
 		n := 1 + r.Intn(3)
 		p.Insts = mkInsts(r, n, 1)
 		for i := range p.Insts {
@@ -1349,7 +1353,7 @@ func init() {
 	// and the instance may be started again with a new context.
 	families["ctxcancel"] = func(r *Rng) *Plan {
 		p := &Plan{Judge: []string{"C02", "C03", "C04", "C08", "C05", "C19", "C06", "C01"}}
-		baseTiming(r, p, hLattice[:5])
+		baseTiming(r, p, hWide)
 		n := 1 + r.Intn(3)
 		p.Insts = mkInsts(r, n, 1)
 		for i := range p.Insts {
@@ -1461,7 +1465,7 @@ func init() {
 	// faster; that owner's record expires later and the new run has to fill the vacancy.
 	families["ctxrestart"] = func(r *Rng) *Plan {
 		p := &Plan{Judge: []string{"C19", "C06", "C08", "C05", "C03", "C04"}, NoJudge: []string{"C01", "C02", "C07"}}
-		baseTiming(r, p, hLattice[:5])
+		baseTiming(r, p, hWide)
 		p.Insts = mkInsts(r, 1, 1)
 		p.Insts[0].V = Pick(r, []time.Duration{0, p.H})
 		p.Store = healthyStore(r, p.H/10)
@@ -1511,7 +1515,7 @@ func init() {
 		// run's record - the unconditional delete of the recorded C01 finding)
 		p := &Plan{Judge: []string{"C06", "C08", "C19", "C05", "C18"}, StartDuringStop: true,
 			NoJudge: []string{"C01", "C02", "C03", "C04", "C07", "C09", "C10", "C11", "C12", "C13"}}
-		baseTiming(r, p, hLattice[:5])
+		baseTiming(r, p, hWide)
 		p.Insts = mkInsts(r, 1, 1)
 		p.Store = healthyStore(r, p.H/10)
 		t0 := time.Duration(0)
